@@ -485,7 +485,7 @@ theorem keyTest_perm (f g : Frame) (k : String) (hc : g.columns = f.columns) (hp
     exact hp.map _
   rw [Bool.eq_iff_iff, keyTest_iff, keyTest_iff]
   unfold KeyValid
-  rw [hcol.nodup_iff]
+  rw [PyDistinct.perm hcol]
   constructor
   · rintro ⟨h1, h2⟩
     exact ⟨h1, fun c hc => h2 c (hcol.mem_iff.1 hc)⟩
